@@ -2993,7 +2993,9 @@ impl RelationalEngine {
             for col in &indexed_columns {
                 if col == "_id" {
                     self.index_add(table, col, &Value::Int(row_id as i64), row_id)?;
-                } else if let Some(value) = values.get(col) {
+                } else {
+                    // an omitted column is stored as NULL and must be indexed as NULL
+                    let value = values.get(col).unwrap_or(&Value::Null);
                     self.index_add(table, col, value, row_id)?;
                 }
             }
@@ -3001,7 +3003,9 @@ impl RelationalEngine {
             for col in &btree_columns {
                 if col == "_id" {
                     self.btree_index_add(table, col, &Value::Int(row_id as i64), row_id)?;
-                } else if let Some(value) = values.get(col) {
+                } else {
+                    // an omitted column is stored as NULL and must be indexed as NULL
+                    let value = values.get(col).unwrap_or(&Value::Null);
                     self.btree_index_add(table, col, value, row_id)?;
                 }
             }
@@ -6807,7 +6811,9 @@ impl RelationalEngine {
         for col in &indexed_columns {
             if col == "_id" {
                 self.index_add(table, col, &Value::Int(row_id as i64), row_id)?;
-            } else if let Some(value) = values.get(col) {
+            } else {
+                // an omitted column is stored as NULL and must be indexed as NULL
+                let value = values.get(col).unwrap_or(&Value::Null);
                 self.index_add(table, col, value, row_id)?;
             }
         }
@@ -6816,7 +6822,9 @@ impl RelationalEngine {
         for col in &btree_columns {
             if col == "_id" {
                 self.btree_index_add(table, col, &Value::Int(row_id as i64), row_id)?;
-            } else if let Some(value) = values.get(col) {
+            } else {
+                // an omitted column is stored as NULL and must be indexed as NULL
+                let value = values.get(col).unwrap_or(&Value::Null);
                 self.btree_index_add(table, col, value, row_id)?;
             }
         }
@@ -6826,7 +6834,9 @@ impl RelationalEngine {
         for col in indexed_columns.iter().chain(btree_columns.iter()) {
             if col == "_id" {
                 index_entries.push((col.clone(), Value::Int(row_id as i64)));
-            } else if let Some(value) = values.get(col) {
+            } else {
+                // an omitted column is stored as NULL and must be indexed as NULL
+                let value = values.get(col).unwrap_or(&Value::Null);
                 index_entries.push((col.clone(), value.clone()));
             }
         }
